@@ -92,8 +92,20 @@ pub const DURS: [u64; 4] = [86_400, 1_394_207, 15_778_463, 31_556_926];
 
 #[derive(Clone, Debug, Serialize, Deserialize)]
 pub enum Op {
-    Open { user: u8, amount: Uint128, dur: u8 },
-    Expand { pick: u16, amount: Uint128 },
+    Open {
+        user: u8,
+        amount: Uint128,
+        dur: u8,
+        /// Some(p): user p pays and names `user` as the receiver of the position
+        #[serde(default)]
+        payer: Option<u8>,
+    },
+    Expand {
+        pick: u16,
+        amount: Uint128,
+        #[serde(default)]
+        payer: Option<u8>,
+    },
     Close { pick: u16 },
     Withdraw { user: u8 },
     Claim { user: u8 },
@@ -110,14 +122,18 @@ pub struct Case {
     pub ops: Vec<Op>,
 }
 
+fn payer() -> BoxedStrategy<Option<u8>> {
+    prop_oneof![3 => Just(None), 2 => (0u8..4).prop_map(Some)].boxed()
+}
+
 fn op() -> BoxedStrategy<Op> {
     let amt = prop_oneof![
         3 => gen::amount(1, 1u128 << 100),
         3 => gen::log_uniform(1, 1u128 << 40),
     ];
     prop_oneof![
-        6 => (0u8..4, amt.clone(), 0u8..4).prop_map(|(user, a, dur)| Op::Open { user, amount: Uint128::new(a), dur }),
-        6 => (any::<u16>(), amt.clone()).prop_map(|(pick, a)| Op::Expand { pick, amount: Uint128::new(a) }),
+        6 => (0u8..4, amt.clone(), 0u8..4, payer()).prop_map(|(user, a, dur, payer)| Op::Open { user, amount: Uint128::new(a), dur, payer }),
+        6 => (any::<u16>(), amt.clone(), payer()).prop_map(|(pick, a, payer)| Op::Expand { pick, amount: Uint128::new(a), payer }),
         4 => any::<u16>().prop_map(|pick| Op::Close { pick }),
         1 => (0u8..4).prop_map(|user| Op::Withdraw { user }),
         6 => (0u8..4).prop_map(|user| Op::Claim { user }),
@@ -168,15 +184,15 @@ impl Check for WeightsAndClaims {
         "weights_and_claims_history"
     }
     fn rule(&self) -> &'static str {
-        "incentive contract (cw20 or native LP) with 4 users, position amounts 1..2^100, four unbonding durations across the allowed range, up to 3 concurrent flows (native and cw20 rewards) with expansions, histories of 30..60 / up to 150 operations over >= 20 epochs {open, expand an existing position, close an existing position, withdraw, claim, claim twice in one epoch, permissionless snapshot by any caller at any point of the epoch, 1..30 new epochs with or without a snapshot first, open / expand flow}. After every step: raw GLOBAL_WEIGHT == sum of raw ADDRESS_WEIGHT; when the current epoch has a snapshot, the address weights reported by CurrentEpochRewardsShare sum to <= the snapshot; a second claim in the same epoch pays nothing; what a claim pays per flow is <= the sum of that flow's emissions over the claimed epochs (recomputed from the flow's raw state); a successful claim pays exactly what the Rewards query returned immediately before it (<= 100 unclaimed epochs). The two known weight-accounting defects are matched by structural signatures. Non-trivial: >= 2 users claimed a non-zero reward and >= 20 epochs elapsed."
+        "incentive contract (cw20 or native LP) with 4 users, position amounts 1..2^100, four unbonding durations across the allowed range, up to 3 concurrent flows (native and cw20 rewards) with expansions, histories of 30..60 / up to 150 operations over >= 20 epochs {open (own funds, or paid by another user naming the owner as receiver), expand an existing position (likewise), close an existing position, withdraw, claim, claim twice in one epoch, permissionless snapshot by any caller at any point of the epoch, 1..30 new epochs with or without a snapshot first, open / expand flow}. After every step: raw GLOBAL_WEIGHT == sum of raw ADDRESS_WEIGHT; when the current epoch has a snapshot, the address weights reported by CurrentEpochRewardsShare sum to <= the snapshot; a second claim in the same epoch pays nothing; what a claim pays per flow is <= the sum of that flow's emissions over the claimed epochs (recomputed from the flow's raw state); a successful claim pays exactly what the Rewards query returned immediately before it (<= 100 unclaimed epochs). The two known weight-accounting defects are matched by structural signatures. Non-trivial: >= 2 users claimed a non-zero reward and >= 20 epochs elapsed."
     }
     fn strategy(&self, tier: Tier) -> BoxedStrategy<Case> {
         let (lo, hi) = tier.pick((30usize, 60usize), (30usize, 150usize));
         (any::<bool>(), prop::collection::vec(op(), lo..hi))
             .prop_map(|(lp_native, mut ops)| {
                 ops.insert(0, Op::OpenFlow { asset: 0, amount: Uint128::new(1_000_000_000), epochs: 30 });
-                ops.insert(1, Op::Open { user: 0, amount: Uint128::new(5_000_000), dur: 0 });
-                ops.insert(2, Op::Open { user: 1, amount: Uint128::new(714_165), dur: 1 });
+                ops.insert(1, Op::Open { user: 0, amount: Uint128::new(5_000_000), dur: 0, payer: None });
+                ops.insert(2, Op::Open { user: 1, amount: Uint128::new(714_165), dur: 1, payer: None });
                 Case { lp_native, ops }
             })
             .boxed()
@@ -206,16 +222,27 @@ impl Check for WeightsAndClaims {
         for (step, op) in c.ops.iter().enumerate() {
             let epoch = iw.current_epoch();
             match op {
-                Op::Open { user, amount, dur } => {
+                Op::Open { user, amount, dur, payer } => {
                     let who = iw.user(*user);
                     let d = DURS[(*dur % 4) as usize];
                     let a = amount.u128();
-                    if iw.position_msg(&who, false, a, a, d, None).is_ok() {
+                    let ok = match payer.filter(|p| p % 4 != *user % 4) {
+                        Some(p) => {
+                            let from = iw.user(p);
+                            let ok = iw.position_msg(&from, false, a, a, d, Some(&who)).is_ok();
+                            if ok {
+                                rec.class("open_for_receiver_ok");
+                            }
+                            ok
+                        }
+                        None => iw.position_msg(&who, false, a, a, d, None).is_ok(),
+                    };
+                    if ok {
                         rec.class("open_ok");
                         open.insert(((*user % 4) as usize, d), a);
                     }
                 }
-                Op::Expand { pick, amount } => {
+                Op::Expand { pick, amount, payer } => {
                     let keys: Vec<(usize, u64)> = open.keys().cloned().collect();
                     if keys.is_empty() {
                         continue;
@@ -223,7 +250,18 @@ impl Check for WeightsAndClaims {
                     let (uu, d) = keys[gen::idx(*pick, keys.len())];
                     let who = iw.user(uu as u8);
                     let a = amount.u128();
-                    if iw.position_msg(&who, true, a, a, d, None).is_ok() {
+                    let ok = match payer.filter(|p| (p % 4) as usize != uu) {
+                        Some(p) => {
+                            let from = iw.user(p);
+                            let ok = iw.position_msg(&from, true, a, a, d, Some(&who)).is_ok();
+                            if ok {
+                                rec.class("expand_for_receiver_ok");
+                            }
+                            ok
+                        }
+                        None => iw.position_msg(&who, true, a, a, d, None).is_ok(),
+                    };
+                    if ok {
                         rec.class("expand_ok");
                         *open.get_mut(&(uu, d)).unwrap() += a;
                         expansions_total += 1;
